@@ -152,7 +152,7 @@ func (p ICMP4Redirect) Lifetime() uint16 { return binary.BigEndian.Uint16(p[6:8]
 func (p ICMP4Redirect) Addrs() []net.IP {
 	addr := make([]net.IP, 0, p.NumAddrs())
 	for i := 0; i < int(p.NumAddrs()); i++ {
-		pos := i * int(p.AddrSize()) * 4
+		pos := 8 + i*int(p.AddrSize())*4 // entries follow the 8 byte header
 		if p.AddrSize() == 4 {
 			addr = append(addr, net.IP(p[pos:pos+4]))
 			continue
